@@ -278,6 +278,7 @@ type dw struct {
 	charset      encoding.Encoding
 	fallbacks    map[rune]string
 	opPen        *vt.Pen
+	inCall       string
 }
 
 func charsetOf(locale string) encoding.Encoding {
